@@ -298,7 +298,12 @@ pub fn type_dispatch(op: &str, t: &str, arg: &Sx, o: &mut String) -> Option<()> 
 pub fn op_bstr(a: &[Sx], o: &mut String) -> Option<()> {
     let [v] = a else { return None };
     let v = Value::parse(v)?;
-    res_form(o, guard(move || ProtectedHeader::from_cbor_bstr(v)));
+    if let Some(x) = res_form(o, guard(move || ProtectedHeader::from_cbor_bstr(v))) {
+        if !copies_agree(&x) {
+            o.clear();
+            o.push_str("bad-clone");
+        }
+    }
     Some(())
 }
 
